@@ -37,6 +37,7 @@ import common
 import c18_audit
 import c18_gen
 import c18_tie
+import c18_cover
 import impl
 from common import cstr, cbool, clist, cpair
 
@@ -624,11 +625,16 @@ def model_tie(res, tier, rng, jobs, fresh_res, hashseeds):
     histories, current = [], []
     n_cases = n_in = n_warm_mismatch = 0
     size_budget = 0
+    cover = c18_cover.Coverage()
     for k in order:
         if n_cases >= limit:
             break
         job = jobs[k]
-        conv, cap, expected = observe(job)
+        if job['tags'][0] == 'regression':
+            with cover:
+                conv, cap, expected = observe(job)
+        else:
+            conv, cap, expected = observe(job)
         # warm (this interpreter, after all the earlier conversions) vs fresh
         ref = fresh_res.get((k, hashseeds[0]))
         if ref is not None:
@@ -685,6 +691,15 @@ def model_tie(res, tier, rng, jobs, fresh_res, hashseeds):
             current, size_budget = [], 0
     if current:
         histories.append(current)
+    total, missing, _stale = cover.report()
+    res.obligation(f'coverage: every executable line of the {len(c18_cover.target_functions())} '
+                   f'modelled functions ({total} lines) is executed by a tied '
+                   f'regression deck, except {len(c18_cover.UNREACHED)} '
+                   'listed unreachable lines', not missing,
+                   '; '.join(f'{f}: {t}' for f, t in missing[:6]))
+    # (an obligation only: a behaviour-preserving rewrite that adds a line no
+    # deck reaches must not be reported as a violation)
+    res.extra['coverage_missing'] = [list(m) for m in missing]
     cases = [clist(c for c, _ in hist) for hist in histories]
     bad, errs = common.run_case_files(
         'c18_hist', TIE_HEADER,
